@@ -251,9 +251,7 @@ Definition intern1 (t : list rdesc) (r : rdesc) : list rdesc * nat :=
 Fixpoint intern (t : list rdesc) (r : rdesc) : list rdesc * nat :=
   match r with
   | RMon ra _ => intern1 (fst (intern t ra)) r
-  | RVarMeta _ _ acc _ => intern1 (fst (intern t acc)) r
-  | RVarBal _ acc asset => intern1 (fst (intern (fst (intern t acc)) asset)) r
-  | _ => intern1 t r
+  | _ => intern1 t r      (* variables: their account / asset resources are allocated by VisitVars just before *)
   end.
 
 Definition map_instr {A B} (f : A -> B) (i : instr A) : instr B :=
